@@ -40,3 +40,23 @@ Theorem C12_pool_hands_out_full_size : forall size ops p,
   Forall (fun out => match out with Some l => l = size | None => True end) (PoolSize.pool_run size p ops).
 Proof. exact PoolSizeProofs.pool_hands_out_full_size. Qed.
 Print Assumptions C12_pool_hands_out_full_size.
+
+(* the worker loops themselves: the sequence of shared-state statements of each of the four loops, REGENERATED from the Go
+   source (Gen/Workers.v), satisfies the discipline the pipeline model assumes (Model/WorkerDiscipline.v): the receive buffer is
+   returned exactly once per iteration, full-size, never while the decoded message is still to be encoded; the mirror copy goes
+   into a fresh buffer before decoding; one Decode, then one Count, before Marshal; what is queued is a fresh copy *)
+From VF Require Model.WorkerDiscipline Gen.Workers.
+Theorem C12_workers_follow_the_buffer_discipline : forall p evs, In (p, evs) Gen.Workers.workers -> WorkerDiscipline.worker_ok evs = true.
+Proof.
+  assert (H : forallb (fun x => WorkerDiscipline.worker_ok (snd x)) Gen.Workers.workers = true) by (vm_compute; reflexivity).
+  intros p evs Hin. rewrite forallb_forall in H. exact (H _ Hin).
+Qed.
+Print Assumptions C12_workers_follow_the_buffer_discipline.
+
+(* the discipline is not vacuous: returning the buffer before the message is encoded, returning a short slice, or queueing the
+   encode buffer itself are all rejected *)
+Example C12_discipline_rejects :
+  WorkerDiscipline.worker_ok ["Put:full"; "Recv"; "Decode"; "Put:full"; "Count"; "Marshal"; "Continue"; "Publish:copy"]%string = false /\
+  WorkerDiscipline.worker_ok ["Recv"; "Decode"; "Put:full"; "Continue"; "Count"; "Put:other"; "Continue"; "Marshal"; "Put:full"; "Continue"; "Publish:copy"; "Put:full"]%string = false /\
+  WorkerDiscipline.worker_ok ["Put:full"; "Recv"; "Decode"; "Continue"; "Count"; "Marshal"; "Continue"; "Publish:other"]%string = false.
+Proof. vm_compute. repeat split. Qed.
